@@ -82,7 +82,7 @@ def audit(only=None):
     afile.write_text("\n".join(lines) + "\n")
     p = subprocess.run(["lake", "env", "lean", str(afile.relative_to(LEAN))], cwd=LEAN, capture_output=True, text=True, timeout=1800)
     if only:
-        afile.unlink()
+        afile.unlink(missing_ok=True)
     if p.returncode != 0:
         raise InfraError("audit failed:\n" + (p.stdout + p.stderr)[-3000:])
     axioms = {}
